@@ -130,6 +130,22 @@ pub fn run_c11(w: &mut W) {
             pkts.insert(at, Pkt::Fixed(fixed_pkt(&mut rng, ver, cnt)));
             w.rep.count("sequences_with_a_packet_beyond_the_datagram_limit", 1);
         }
+        // one sequence in eight runs under a restricted allowed set; packets of versions outside it
+        // are moved to the end of the sequence (a filtered packet ends a chained parse by design, so
+        // the equivalence is stated for sequences in which nothing allowed follows it)
+        let restricted: Option<Vec<u16>> = if !oversize && rng.chance(1, 8) {
+            let mut sset: Vec<u16> = [5u16, 7, 9, 10].iter().cloned().filter(|_| rng.chance(1, 2)).collect();
+            if sset.is_empty() {
+                sset.push(*rng.pick(&[5u16, 7, 9, 10]));
+            }
+            let (mut keep, drop): (Vec<Pkt>, Vec<Pkt>) = pkts.drain(..).partition(|p| sset.contains(&p.version()));
+            keep.extend(drop);
+            pkts = keep;
+            w.rep.count("sequences_under_a_restricted_allowed_set", 1);
+            Some(sset)
+        } else {
+            None
+        };
         let mut wires: Vec<Vec<u8>> = pkts.iter().map(|p| p.wire()).collect();
         // a packet that decodes to an error may only be last
         if rng.chance(1, 5) {
@@ -161,6 +177,9 @@ pub fn run_c11(w: &mut W) {
         // first packet that does so when delivered one per call
         {
             let mut probe = NetflowParser::default();
+            if let Some(sset) = &restricted {
+                probe.allowed_versions = sset.iter().cloned().collect();
+            }
             let mut keep = wires.len();
             for (i, x) in wires.iter().enumerate() {
                 if probe.parse_bytes(x).iter().any(|e| e.is_error()) {
@@ -174,6 +193,9 @@ pub fn run_c11(w: &mut W) {
         let n = wires.len();
         // reference: one packet per call
         let mut ref_sut = Sut::new(1);
+        if let Some(sset) = &restricted {
+            ref_sut.parsers[0].allowed_versions = sset.iter().cloned().collect();
+        }
         let (ref_canon, ref_snap, ref_flows) = run_partition(&wires, u128::MAX, &mut ref_sut);
         let masks: Vec<u128> = if n <= max_exh {
             (0..(1u128 << (n - 1))).collect()
@@ -202,6 +224,9 @@ pub fn run_c11(w: &mut W) {
         let mut ok = true;
         for m in &masks {
             let mut sut = Sut::new(1);
+            if let Some(sset) = &restricted {
+                sut.parsers[0].allowed_versions = sset.iter().cloned().collect();
+            }
             let (c, s, f) = run_partition(&wires, *m, &mut sut);
             w.rep.count("partitions_executed", 1);
             let d = if c != ref_canon {
@@ -300,6 +325,16 @@ pub fn run_c12(w: &mut W) {
         let ra = sut.parse(0, &buf);
         let rb = sut.parse(1, &buf);
         w.rep.count("pairs", 1);
+        // the allowed set is the application's: a call must leave the public field as assigned
+        {
+            let now: std::collections::BTreeSet<u16> = sut.parsers[0].allowed_versions.iter().cloned().collect();
+            let want: std::collections::BTreeSet<u16> = s.iter().cloned().collect();
+            if now != want {
+                let d = div("filter/allowed-set", "edited-by-the-library", format!("allowed_versions was assigned {:?}; after one parse_bytes call it holds {:?}", want, now));
+                w.rep.violation(sig("C12", &d), &d, sut.replay_json());
+                continue;
+            }
+        }
         w.rep.count(&format!("allowed_subset.{:04b}", subset), 1);
         let verdict: Result<(), Div> = (|| {
             let all: std::collections::HashSet<u16> = super::common::all_versions();
